@@ -7,8 +7,9 @@ namespace U {
 // decode a library automaton whose states are all < N into masks; returns false if a rule / final state outside the
 // universe U(N, SYM_RANKS) occurs.  State numbers and symbols of the result may be symbolic values: they are compared
 // against every universe rule (no indexing with them).
-template <unsigned N, class Aut> static bool decode(const Aut& aut, SymAut<N>& out)
+template <unsigned N, class Aut> static bool decode(const Aut& aut, SymAut<N>& out, const unsigned long* stateName = 0, const unsigned long* symName = 0)
 {
+  // stateName / symName (optional): the library number of universe state s / symbol f (default: s / f themselves)
   out.nrules = Univ<N>::count();
   for (unsigned i = 0; i < out.nrules; ++i) out.pres[i] = false;
   bool ok = true;
@@ -16,14 +17,14 @@ template <unsigned N, class Aut> static bool decode(const Aut& aut, SymAut<N>& o
     bool matched = false;
     for (unsigned i = 0; i < out.nrules; ++i) {
       Rule r = Univ<N>::rule(i);
-      bool m = (t.GetSymbol() == r.sym) & (t.GetParent() == r.parent) & (t.GetChildren().size() == r.rank);
-      if (t.GetChildren().size() == r.rank) for (unsigned k = 0; k < r.rank; ++k) m = m & (t.GetChildren()[k] == r.child[k]);
+      bool m = (t.GetSymbol() == (symName ? symName[r.sym] : r.sym)) & (t.GetParent() == (stateName ? stateName[r.parent] : r.parent)) & (t.GetChildren().size() == r.rank);
+      if (t.GetChildren().size() == r.rank) for (unsigned k = 0; k < r.rank; ++k) m = m & (t.GetChildren()[k] == (stateName ? stateName[r.child[k]] : r.child[k]));
       out.pres[i] = out.pres[i] | m; matched = matched | m;
     }
     ok = ok & matched;
   }
   for (unsigned s = 0; s < N; ++s) out.fin[s] = false;
-  for (const auto& f : aut.GetFinalStates()) { bool in = false; for (unsigned s = 0; s < N; ++s) { bool m = (f == s); out.fin[s] = out.fin[s] | m; in = in | m; } ok = ok & in; }
+  for (const auto& f : aut.GetFinalStates()) { bool in = false; for (unsigned s = 0; s < N; ++s) { bool m = (f == (stateName ? stateName[s] : s)); out.fin[s] = out.fin[s] | m; in = in | m; } ok = ok & in; }
   return ok;
 }
 template <unsigned N> static void clear(SymAut<N>& a) { a.nrules = Univ<N>::count(); for (unsigned i = 0; i < a.nrules; ++i) a.pres[i] = false; for (unsigned s = 0; s < N; ++s) a.fin[s] = false; }
